@@ -93,7 +93,13 @@ where
     let mut index = Vec::new();
     let mut record = Record::default();
 
-    while read_record(reader, buf, &mut record).await? != 0 {
+    loop {
+        buf.clear();
+
+        if read_record(reader, buf, &mut record).await? == 0 {
+            break;
+        }
+
         index.push(record.clone());
     }
 
